@@ -1248,7 +1248,7 @@ class Distribution(ScalarDistribution):
             else:
                 # Outcome is in pmf.  We still need to test if it represents
                 # a null probability.
-                return self.pmf[idx] > self.ops.zero
+                return not self.ops.is_null_exact(self.pmf[idx])
 
     def is_homogeneous(self):
         """
